@@ -271,7 +271,9 @@ def _chunk(args):
 
 
 def run(ctx):
-    flats = [0.05, 0.3, 1.0, 3.0]
+    # 1.2 and 2.5 sit between the lattice's control-polygon spans (1, 2) and their diagonals
+    # (1.41, 2.83): a bounding-box shortcut and the true distance test disagree exactly there
+    flats = [0.05, 0.3, 1.0, 1.2, 2.5, 3.0]
     seed_flat = [0.1, 0.2, 0.5, 0.7, 2.0][ctx.seed % 5]
     flats.append(seed_flat)
     if ctx.thorough:
